@@ -389,6 +389,11 @@ class Folder(object):
                 return len(args[0])
         if isinstance(func, Sym):
             return CallTerm(func, args, kwargs, node)
+        if isinstance(func, CallTerm) and func.func.name == 'namedtuple' \
+                and func.args and isinstance(func.args[0], str):
+            # instance of a namedtuple class: a record term
+            return CallTerm(Sym(self.module.name, func.args[0]), args,
+                            kwargs, node)
         if isinstance(func, CallTerm) and func.func.name == 'partial' and \
                 func.args and isinstance(func.args[0], Sym):
             kw = dict(func.kwargs)
